@@ -43,6 +43,17 @@ claim("C15",
       "(fix: commit, see known_findings.json).",
       "DESIGN.md section 4 (C15)")
 
+claim("C17",
+      "The real SQLLineageApp.__call__ and its routes run on a symbolic request path (k<=3 quick / k<=4 + seeded k=5 thorough "
+      "segments of 0..3 chars over {. q z _}, relative / absolute / double-slash spelling, symbolic root name); pathlib, os.path, "
+      "open and json are the LxPath model (self-tested against the real modules on 1246 concrete paths per run) in a worst-case "
+      "environment; z3 decides for ALL such paths that every path handed to open()/iterdir() lies, after resolving '.' and '..', "
+      "inside the static folder (GET) or the root (POST). Every path's witness is replayed on the unmodified app with real pathlib "
+      "on a scratch tree with markers outside the root, observing both the response body and the real open/scandir audit events.",
+      TRUST + "; POSIX, no symlinks; existence answers are not counted as disclosure; LineageRunner behind /lineage is an inert stub. "
+      "The string-prefix defect found by this check was repaired in /repo (fix: commit, see known_findings.json).",
+      "DESIGN.md section 4 (C17)")
+
 ALL = ["C%02d" % i for i in range(1, 19)]
 
 
